@@ -11,19 +11,7 @@
 (*     nearest millisecond;                                                *)
 (*   - with no usable clock and no increment: zero.                        *)
 (***************************************************************************)
-EXTENDS Integers, Sequences, IOUtils
-
-Margin == 100
-DefaultMtg == 30
-Max0(x) == IF x > 0 THEN x ELSE 0
-
-\* slice <= round(0.8 * base / mtg)  <=>  slice <= floor((8*base + 5*mtg) / (10*mtg))   (no 32-bit overflow for clock <= 2*10^8)
-SliceOK(clock, inc, mtg, slice) ==
-  LET base == clock - Margin IN
-  /\ slice >= 0
-  /\ slice <= Max0(clock)
-  /\ (base > 0 => slice <= (8 * base + 5 * mtg) \div (10 * mtg))
-  /\ (base <= 0 /\ inc <= 0 => slice = 0)
+EXTENDS Integers, Sequences, IOUtils, SliceContract
 
 \* go tokens -> [wtime, btime, winc, binc, mtg] ; a keyword consumes the next token, anything else is skipped;
 \* a keyword in last position has no value and is skipped
